@@ -8,7 +8,7 @@ CONSTANTS
   MaxLosses = 99
   MaxLogins = 99
   SlowScan = {TRUE, FALSE}
-  Env = {"exec", "peerin", "userdisc", "midburst"}
+  Env = {"exec", "peerin", "userdisc", "midburst", "parent"}
   MaxConnFail = 99
   FixAutoJoin = TRUE
   FixDistStopped = TRUE
